@@ -168,6 +168,7 @@ def run(ctx):
     ctx.sample({"reader_sequence": rcases[77]["calls"], "events": rseq_events(rrecs[rcases[77]["id"]], total)})
     reset_is_new(ctx, b, d, rcases, rrecs)
     reuse_across_frames(ctx, b, d)
+    writer_reuse_across_configs(ctx, b, d)
     for rj in rej:
         rec = json.loads(rj["line"])
         c = by_r[rec["case"]]
@@ -343,6 +344,71 @@ def reuse_across_frames(ctx, b, d):
     ctx.extra["reuse_across_frames"] = len(cases)
 
 
+def writer_reuse_across_configs(ctx, b, d):
+    """The Writer's side of "Reset makes the object indistinguishable from a new one with the same options": a Writer that
+    wrote a frame in one configuration (legacy or not, some block size), was Reset and re-configured writes byte for byte
+    the frame a new Writer in the second configuration writes (D28: after a legacy frame the descriptor kept the legacy
+    block size code).  Differential, no model of the expected bytes."""
+    words = (b"lorem ipsum dolor sit amet consectetur adipiscing elit sed do eiusmod tempor " * 80)
+    first, second = list(words[:1500]), list(words[700:5000])
+    cfgs = [(False, 4), (False, 5), (False, 7), (True, 7)]              # (legacy, block size code)
+    cases, refs = [], {}
+    base = {"bcs": False, "ccs": True, "level": 0, "handler": False}
+    for conc in (1, 4):
+        for lb, cb in cfgs:
+            rid = len(cases) + 1
+            cases.append({"id": rid, "kind": "writer", "lives": True, "input": {"family": "bytes", "len": len(second), "seed": 0, "bytes": second},
+                          "opts": dict(base, code=cb, legacy=lb, conc=conc), "calls": [{"op": "write", "n": len(second)}, {"op": "close"}],
+                          "seed": 1, "perturb": 0, "poison": False})
+            refs[(conc, lb, cb)] = rid
+            for la, ca in cfgs:
+                if (la, ca) == (lb, cb):
+                    continue
+                for n1 in (0, len(first)):
+                    re = [{"op": "apply", "n": 101 if lb else 100}] + ([{"op": "apply", "n": cb}] if not lb else [])
+                    calls = ([{"op": "write", "n": n1}] if n1 else [{"op": "write", "n": 0}]) + [{"op": "close"}, {"op": "reset"}] + re + \
+                        [{"op": "write", "n": len(second)}, {"op": "close"}]
+                    data = (first if n1 else []) + second
+                    cases.append({"id": len(cases) + 1, "kind": "writer", "lives": True, "input": {"family": "bytes", "len": len(data), "seed": 0, "bytes": data},
+                                  "opts": dict(base, code=ca, legacy=la, conc=conc), "calls": calls, "seed": 1, "perturb": 0, "poison": False,
+                                  "ref": rid, "from": "%s/%d" % ("legacy" if la else "frame", ca), "to": "%s/%d" % ("legacy" if lb else "frame", cb)})
+    # ... and only the legacy switch turned off again: the block size configured before is in force (D28)
+    for conc in (1, 4):
+        for ca in (4, 5, 7):
+            for n1 in (0, len(first)):
+                calls = [{"op": "write", "n": n1}, {"op": "close"}, {"op": "reset"}, {"op": "apply", "n": 100}, {"op": "write", "n": len(second)}, {"op": "close"}]
+                data = (first if n1 else []) + second
+                cases.append({"id": len(cases) + 1, "kind": "writer", "lives": True, "input": {"family": "bytes", "len": len(data), "seed": 0, "bytes": data},
+                              "opts": dict(base, code=ca, legacy=True, conc=conc), "calls": calls, "seed": 1, "perturb": 0, "poison": False,
+                              "ref": refs[(conc, False, ca)], "from": "legacy/%d" % ca, "to": "frame/%d (legacy switched off only)" % ca})
+    recs, faults = fl.shard_run(b, "pipe-run", cases, d, "wreuse", extra=("--watchdog", "30s"))
+    if faults:
+        raise vlib.MachineryFault("pipe-run failed: %s" % faults[0]["stderr"][-600:])
+    ctx.evaluations += len(cases)
+    ctx.distinct += len(cases)
+    by_id = {c["id"]: c for c in cases}
+    for c in cases:
+        if "ref" not in c or c["id"] not in recs or c["ref"] not in recs:
+            continue
+        r, rr = recs[c["id"]], recs[c["ref"]]
+        if rr.get("status") != "ok" and not by_id[c["ref"]]["opts"]["legacy"]:
+            raise vlib.MachineryFault("a new Writer does not write a valid frame (%s)" % c["to"])
+        if not r["hung"] and r.get("lastSegSha") == rr.get("sinkSha") and not any(e not in ("none", "") for e in r["errs"]):
+            continue
+        key = "C17:writer:reset-is-not-new:%s->%s:conc=%s" % (c["from"], c["to"], "1" if c["opts"]["conc"] == 1 else ">1")
+        if any(v[0] == key for v in ctx.violations):
+            continue
+        r2, _ = fl.shard_run(b, "pipe-run", [c, by_id[c["ref"]]], d, "wreuseagain", nshards=1, extra=("--watchdog", "30s"))
+        a, z = r2.get(c["id"]), r2.get(c["ref"])
+        if a and z and not a["hung"] and a.get("lastSegSha") == z.get("sinkSha") and not any(e not in ("none", "") for e in a["errs"]):
+            ctx.unreproducible(key)
+            continue
+        ctx.violation(key, "a Writer Reset and re-configured does not write what a new Writer with those options writes: %s" % key,
+                      {"kind": "c17-writer-reuse", "case": c, "fresh": by_id[c["ref"]],
+                       "observed": {k: v for k, v in (a or {}).items() if k != "events"}, "new_object": {k: v for k, v in (z or {}).items() if k != "events"}})
+    ctx.extra["writer_reuse_across_configs"] = len(cases)
+
+
 def rseq_events(r, total):
     ev = [{"ev": "rnew", "case": r["case"], "total": total, "conc": r["conc"], "linked": False, "declared": [total % 65536, total // 65536, 0, 0]}]
     for c in r["calls"]:
@@ -376,6 +442,15 @@ def replay(ctx, path):
     rp = json.load(open(path))
     b = vlib.build_harness()
     d = vlib.scratch("c17r")
+    if rp["kind"] == "c17-writer-reuse":
+        c, ref = rp["case"], rp["fresh"]
+        r2, _ = fl.shard_run(b, "pipe-run", [c, ref], d, "wreuseagain", nshards=1, extra=("--watchdog", "30s"))
+        a, z = r2.get(c["id"]), r2.get(ref["id"])
+        if not (a and z) or a["hung"] or a.get("lastSegSha") != z.get("sinkSha") or any(e not in ("none", "") for e in a["errs"]):
+            print("VIOLATION property=%s replay=%s" % (ctx.prop, path))
+            return 1
+        print("replay: deviation not observed")
+        return 0
     if rp["kind"] == "c17-reuse-frames":
         fl.shard_run(b, "frame-write", [dict(f, save=os.path.join(d, os.path.basename(f["save"]))) for f in rp["frames"] if "bytes" not in f], d, "reusew")
         for f in rp["frames"]:
